@@ -188,6 +188,11 @@ def _entries():
         img = W.reals('img', (2, 2), nonneg=True)
         return {'image': img}, lambda: lt.detector.pixel(img, 2)
 
+    @reg('detector.pixel (complex frame)')
+    def _(W, lt):
+        img = W.complexes('img', (2, 2))
+        return {'image': img}, lambda: lt.detector.pixel(img, 2)
+
     @reg('jitter')
     def _(W, lt):
         img = W.reals('img', (2, 2), nonneg=True)
@@ -382,7 +387,7 @@ def run_inplace(W, cfg):
 
 # ------------------------------------------------------------------ histories
 def cfg_hist(tier, seed):
-    out = [{'case': c} for c in ('plane-reuse', 'interleaved-dft2', 'fit-tilt-twice', 'fit-tilt-twice-segmented', 'spectrum-reuse', 'spectra-sharing-arrays', 'spectrum-edit-sample', 'operand-attributes', 'multiply-rescale-multiply', 'fit-tilt-copy-segmented', 'fit-tilt-copy-degenerate', 'views-keep-fields', 'wavefront-fanout', 'offset-dft2-twice', 'scratch-reuse')]
+    out = [{'case': c} for c in ('plane-reuse', 'interleaved-dft2', 'fit-tilt-twice', 'fit-tilt-twice-segmented', 'spectrum-reuse', 'spectra-sharing-arrays', 'spectrum-edit-sample', 'operand-attributes', 'multiply-rescale-multiply', 'fit-tilt-copy-segmented', 'fit-tilt-copy-degenerate', 'views-keep-fields', 'wavefront-fanout', 'offset-dft2-twice', 'scratch-reuse', 'process-settings')]
     return out, len(out), True
 
 
@@ -580,6 +585,41 @@ def run_hist(W, cfg):
             W.ob(f'{edit}: the caller\'s value array untouched', vv, v0)
             W.ob(f'{edit}: the sibling Spectrum keeps its values', s2.value, v0)
             W.ob(f'{edit}: the sibling Spectrum keeps its wavelengths', s2.wave, w0)
+    elif case == 'process-settings':
+        # process-wide settings are hidden state too: numpy's floating-point error handling, print options, the warning filters and
+        # the global random state are what they were after accepted AND refused calls (concrete-only: these are numpy's own globals)
+        def ok():
+            import numpy as real
+            D = lt.detector
+            state = lambda: (real.geterr(), real.get_printoptions(), list(warnings.filters), real.random.get_state()[1][:8].tolist(), real.random.get_state()[2])
+            before = state()
+            calls = [lambda: D.shot_noise(real.array([[4.0, 9.0]]), method='gaussian', seed=1),
+                     lambda: D.shot_noise(real.array([[-1.0, 4.0]]), method='gaussian', seed=1),
+                     lambda: D.shot_noise(real.array([[0.0, 4.0]]), method='gaussian', seed=1),
+                     lambda: D.shot_noise(-10, method='gaussian', seed=3),
+                     lambda: D.shot_noise(real.array([[-1.0, -4.0]]), method='gaussian', seed=3),
+                     lambda: D.shot_noise(-10, method='poisson', seed=3),
+                     lambda: D.shot_noise(0, method='gaussian', seed=3),
+                     lambda: D.shot_noise(real.array([[-1.0, 4.0]]), method='poisson', seed=1),
+                     lambda: D.shot_noise(real.array([[1e30, 4.0]]), method='poisson', seed=1),
+                     lambda: D.shot_noise(real.array([[4.0, 9.0]]), method='poisson', seed=1),
+                     lambda: D.read_noise(real.ones((1, 2)), -1.0, seed=1),
+                     lambda: D.adc(real.ones((1, 2)), 0.0),
+                     lambda: lt.jitter(real.zeros((2, 2)), 1.0),
+                     lambda: lt.smear(real.zeros((2, 2)), 1.0, angle=30),     # without an angle smear draws one from the global generator, as documented
+                     lambda: lt.normalize_power(real.zeros((2, 2))),
+                     lambda: lt.radiometry.Spectrum([1, 2], [1.0, 0.0]) / lt.radiometry.Spectrum([1, 2], [0.0, 0.0])]
+            for c in calls:
+                with warnings.catch_warnings():
+                    warnings.simplefilter('ignore')
+                    try:
+                        c()
+                    except Exception:
+                        pass
+                if state() != before:
+                    return False
+            return True
+        W.ob_concrete('accepted and refused calls leave numpy\'s error handling, print options, warning filters and global random state alone', ok)
     elif case == 'spectrum-edit-sample':
         # sample in another wavelength unit, edit the values (setter, flux-unit conversion, in-place arithmetic), sample again:
         # the answer is that of a fresh Spectrum in the same state
